@@ -333,8 +333,11 @@ class ProtocolMonitor(Monitor):
                         falls = {fall(s, oobj, in_block(oc, s)), fall(s, oobj, eom_now(oc))}
                         cand = s["tf"] + max(falls)
                         loose = cand if loose is None else max(loose, cand)
-                        if self._real(r, o, s):  # most recent *real* pulse sharing a target
+                        if strict is None and self._real(r, o, s):  # most recent *real* pulse sharing a target
                             strict = s["tf"] + min(falls)
+                        if s["kind"] == "pulse":
+                            # (behind zero-amplitude slots the last driven pulse may still be ramping down: the
+                            #  scheduler may wait for it too -> upper end of the admissible interval)
                             break
                 if strict is not None:
                     C_lo = strict if C_lo is None else max(C_lo, strict)
